@@ -37,40 +37,58 @@ import (
 	"kverif/muxfake"
 )
 
-func genBatchRd(r *rand.Rand) job {
-	sub := r.Int63n(1 << 40)
-	return job{op: "batchrd", run: func() result {
-		cmd := exec.Command(os.Args[0], "-child", "batchrd", "-sub", fmt.Sprint(sub))
-		var out, errb bytes.Buffer
-		cmd.Stdout, cmd.Stderr = &out, &errb
-		done := make(chan error, 1)
-		if err := cmd.Start(); err != nil {
-			return result{"sub=" + hx(sub), "SETUP:" + err.Error(), ""}
-		}
-		go func() { done <- cmd.Wait() }()
-		var werr error
-		select {
-		case werr = <-done:
-		case <-time.After(8 * time.Second):
-			cmd.Process.Kill()
-			<-done
-			return result{"sub=" + hx(sub), "HANG", "child"}
-		}
-		line := strings.TrimSpace(out.String())
-		parts := strings.Split(line, " | ")
-		if werr != nil || len(parts) != 3 {
-			msg := strings.TrimSpace(errb.String())
-			if i := strings.IndexByte(msg, '\n'); i > 0 {
-				msg = msg[:i]
+func genBatchRd(r *rand.Rand) job { return childJob("batchrd", r.Int63n(1<<40)) }
+
+// childJob runs one scenario of a family in a child process (re-exec of this binary).
+func childJob(family string, sub int64) job {
+	return job{op: family, run: func() result {
+		res := runChild(family, sub)
+		// the byte accounting reads two counters of a live connection; a lone failure that does
+		// not reproduce on the same scenario is reported as such (feature flaky-retry), a seeded
+		// or real defect of the code under test reproduces
+		if strings.Contains(res.res, "acct=BAD") {
+			first := res.res
+			if again := runChild(family, sub); !strings.Contains(again.res, "BAD") && !strings.HasPrefix(again.res, "CRASH") && !strings.HasPrefix(again.res, "HANG") {
+				again.feats += ",flaky-retry"
+				again.args += " first=" + strings.ReplaceAll(first, " ", "_")
+				return again
 			}
-			msg = strings.ReplaceAll(strings.ReplaceAll(msg, " ", "_"), "|", "/")
-			if len(msg) > 80 {
-				msg = msg[:80]
-			}
-			return result{"sub=" + hx(sub), "CRASH:" + msg, "child"}
 		}
-		return result{parts[0], parts[1], parts[2]}
+		return res
 	}}
+}
+
+func runChild(family string, sub int64) result {
+	cmd := exec.Command(os.Args[0], "-child", family, "-sub", fmt.Sprint(sub))
+	var out, errb bytes.Buffer
+	cmd.Stdout, cmd.Stderr = &out, &errb
+	done := make(chan error, 1)
+	if err := cmd.Start(); err != nil {
+		return result{"sub=" + hx(sub), "SETUP:" + err.Error(), ""}
+	}
+	go func() { done <- cmd.Wait() }()
+	var werr error
+	select {
+	case werr = <-done:
+	case <-time.After(8 * time.Second):
+		cmd.Process.Kill()
+		<-done
+		return result{"sub=" + hx(sub), "HANG", "child"}
+	}
+	line := strings.TrimSpace(out.String())
+	parts := strings.Split(line, " | ")
+	if werr != nil || len(parts) != 3 {
+		msg := strings.TrimSpace(errb.String())
+		if i := strings.IndexByte(msg, '\n'); i > 0 {
+			msg = msg[:i]
+		}
+		msg = strings.ReplaceAll(strings.ReplaceAll(msg, " ", "_"), "|", "/")
+		if len(msg) > 80 {
+			msg = msg[:80]
+		}
+		return result{"sub=" + hx(sub), "CRASH:" + msg, "child"}
+	}
+	return result{parts[0], parts[1], parts[2]}
 }
 
 type bop struct {
@@ -286,18 +304,34 @@ func batchRdChild(sub int64) {
 	}
 	snapCh := make(chan snap, 1)
 	var bt *kafka.Batch
+	readBad := ""
 	go func() {
 		bt = kc.ReadBatch(1, int(fetchCall.n))
 		for i, o := range ops {
+			var got []byte
+			var rerr error
 			switch o.kind {
 			case 0:
-				bt.ReadMessage()
-			case 1:
-				bt.Read(make([]byte, len(vals[i])+1+r.Intn(64)))
-			case 2:
-				bt.Read(make([]byte, len(vals[i])))
+				var m kafka.Message
+				m, rerr = bt.ReadMessage()
+				got = m.Value
+			case 1, 2:
+				buf := make([]byte, len(vals[i])+(o.kind%2)*(1+r.Intn(64)))
+				var n int
+				n, rerr = bt.Read(buf)
+				if n >= 0 && n <= len(buf) {
+					got = buf[:n]
+				}
 			case 3:
-				bt.Read(make([]byte, len(vals[i])-o.short*F))
+				buf := make([]byte, len(vals[i])-o.short*F)
+				_, rerr = bt.Read(buf)
+				if !errors.Is(rerr, io.ErrShortBuffer) && !hwmEq && !drip {
+					readBad = fmt.Sprintf("short:%d:%v", i, rerr)
+				}
+				continue
+			}
+			if !hwmEq && !drip && (rerr != nil || !bytes.Equal(got, vals[i])) && readBad == "" {
+				readBad = strings.ReplaceAll(fmt.Sprintf("read:%d:%v", i, rerr), " ", "_")
 			}
 		}
 		err := bt.Close()
@@ -401,7 +435,9 @@ func batchRdChild(sub int64) {
 	if open && s.unread != 0 {
 		acct = "BAD:" + hx(int64(s.unread))
 	}
-	if s.closeClass == 3 {
+	if readBad != "" {
+		serve = "BAD:" + strings.ReplaceAll(readBad, " ", "_")
+	} else if s.closeClass == 3 {
 		serve = "BAD:close-hung"
 	} else if open {
 		for i, c := range cls {
